@@ -32,8 +32,8 @@ CLAIMS = {
              '(inductive representation invariant). Verus discharges the obligations on the real function bodies (update_nodes, update_hashes, '
              'recalculate_from, get_subtree_root, proof loops included).',
         note='Hash is an uninterpreted function. Assumed: std specs listed in evidence; FullMerkleTree::set_range / new bodies are assumed in Verus and checked by Kani on the real crate at '
-             'bounded depth (reported as bounded); OptimalMerkleTree::set_range body (enumerate over a generic iterator) is an UNCHECKED assumption; the persistent backend is verified '
-             'against an assumed contract of the pmtree dependency. Known finding: PmTree remove_indices_and_set_leaves (pinned by an existing test).',
+             'bounded depth (reported as bounded); OptimalMerkleTree::set_range body (enumerate over a generic iterator) is assumed in Verus and checked by Kani (unit optimal_tree_kani, bounded, std HashMap replaced by a '
+             'declared association-list stand-in in the Kani scratch copy); the persistent backend is verified against an assumed contract of the pmtree dependency and re-checked as compiled against stub pmtree / sled crates (pm_adapter_kani, bounded). Known finding: PmTree remove_indices_and_set_leaves (pinned by an existing test).',
         design='DESIGN.md §4 C06'),
     'C07': dict(
         text='proof(i) is proved to return exactly the ideal path (one sibling per level, LSB-first direction bits) for every wf tree and position, verify() to accept iff the path folds to the ideal root; '
